@@ -616,7 +616,27 @@ func (cx *Ctx) c07Real(r *rng, n, procs int, gc genCfg, simResults []JobResult) 
 			spans = append(spans, [2]int{a, b})
 		}
 	}
-	rs := cx.realFresh.Run(jobs, nil)
+	// the k-th process of every input runs in a different environment: what the result may NOT depend on
+	envs := [][]string{
+		nil,
+		{"GOMAXPROCS=1", "TZ=Pacific/Kiritimati", "LANG=tr_TR.UTF-8", "LC_ALL=tr_TR.UTF-8"},
+		{"GOMAXPROCS=3", "TZ=America/St_Johns", "HOME=/nonexistent", "TMPDIR=/nonexistent", "GOGC=10"},
+		{"GOMAXPROCS=64", "GODEBUG=asyncpreemptoff=1", "USER=someone-else", "GOGC=400"},
+	}
+	rs := make([]JobResult, len(jobs))
+	for p := 0; p < procs; p++ {
+		var sub []*spec.Job
+		var at []int
+		for i := p; i < len(jobs); i += procs {
+			sub = append(sub, jobs[i])
+			at = append(at, i)
+		}
+		pool := *cx.realFresh
+		pool.Env = envs[p%len(envs)]
+		for k, r := range pool.Run(sub, nil) {
+			rs[at[k]] = r
+		}
+	}
 	inputs, fidelityOK, fidelityCmp, timeouts, realCalls := 0, 0, 0, 0, 0
 	for g := 0; g < len(rs); g += procs {
 		group := rs[g : g+procs]
@@ -677,6 +697,7 @@ func (cx *Ctx) c07Real(r *rng, n, procs int, gc genCfg, simResults []JobResult) 
 	}
 	return map[string]any{"inputs": inputs, "fresh_processes_per_input": procs, "in_process_repeats": 4, "real_calls": realCalls,
 		"fidelity_compared": fidelityCmp, "fidelity_agree": fidelityOK, "real_jobs_died_or_timed_out": timeouts,
+		"environments": "process k of an input runs under a different GOMAXPROCS (default, 1, 3, 64), time zone, locale, HOME/TMPDIR/USER, GOGC and GODEBUG",
 		"note": "observation of the real runtime, not simulation: catches nondeterminism the seam inventory does not own and validates that the rewrites do not change behaviour"}
 }
 
